@@ -116,6 +116,7 @@ fn extremes(ctx: &Ctx) {
             });
         }),
         Box::new(|| crate::c17_more::extremes(ctx)),
+        Box::new(|| crate::c17_more::param_extremes(ctx)),
     ];
     jobs.par_iter().enumerate().for_each(|(i, j)| {
         let t = std::time::Instant::now();
